@@ -1097,8 +1097,9 @@ def gen_feature_location(rng, n, circular, strand):
         if strand == -1:
             parts.reverse()
         if len(parts) == 2 and rng.random() < 0.3:
-            # (with more exons the other order is refused by split_origin_bridging_location inside Feature.__lt__: such a
-            # record cannot be written at all - see notes, observation 11)
+            # (with more exons the other order is refused by split_origin_bridging_location: no record read from a file
+            # holds such a location - Record.from_biopython refuses it since the repair of C10-F65, see notes, finding 11 -
+            # and a record built with one cannot be written; the read-path stream (e) covers those orders)
             parts.reverse()
             shape = "span_other"
         return CL(parts), shape
@@ -1727,6 +1728,44 @@ def impl_read_feature(n, circular, ty, type_name, parts):
         return [1, err_code(exc)]
 
 
+def impl_read_then_write(n, circular, type_name, parts):
+    """ the repaired finding C10-F65 as a property of the real code: a record read from a file that holds the feature, a
+        plain second feature and a CDS - and then receives two overlapping subregions, as a sideloaded run would add them -
+        is either refused by Record.from_biopython (SecmetInvalidInputError) or can be written: sorted(all_features) with
+        Feature.__lt__ and CDSCollection.__lt__ does not raise.  Returns ("refused" | "written" | "unwritable", detail) """
+    from Bio.Seq import Seq
+    from Bio.SeqFeature import SeqFeature
+    from Bio.SeqRecord import SeqRecord
+    from antismash.common.secmet import Record
+    from antismash.common.secmet.errors import SecmetInvalidInputError
+    from antismash.common.secmet.features import SubRegion
+    from antismash.common.secmet.locations import FeatureLocation as FL
+    bio = SeqRecord(Seq("ATGAAACCC" * (n // 9 + 1))[:n], id="rec1", name="rec1")
+    bio.annotations["topology"] = "circular" if circular else "linear"
+    bio.annotations["molecule_type"] = "DNA"
+    location = make_loc(parts)
+    quals = {"gene": ["x"]} if type_name == "gene" else {"note": ["n"]}
+    if type_name == "CDS":
+        quals = {"locus_tag": ["w"], "translation": ["M" * max(1, len(location) // 3)]}
+    bio.features.append(SeqFeature(location, type=type_name, qualifiers=quals))
+    bio.features.append(SeqFeature(FL(n // 2, n // 2 + 11, 1), type="misc_feature", qualifiers={"note": ["plain"]}))
+    bio.features.append(SeqFeature(FL(n // 3, n // 3 + 30, -1), type="CDS",
+                                   qualifiers={"locus_tag": ["plain"], "translation": ["M" * 10]}))
+    try:
+        record = Record.from_biopython(bio, "bacteria")
+    except SecmetInvalidInputError as exc:
+        return "refused", str(exc)[:200]
+    except Exception as exc:  # pylint: disable=broad-except
+        return "read_raised_" + type(exc).__name__, str(exc)[:200]       # not this property's business (fn 14 compares errors)
+    try:
+        record.add_subregion(SubRegion(FL(n // 2, n - 5, 1), tool="t"))
+        record.add_subregion(SubRegion(FL(n // 10, n - 20, 1), tool="t"))
+        record.to_biopython()
+    except Exception as exc:  # pylint: disable=broad-except
+        return "unwritable", f"{type(exc).__name__}: {exc}"[:300]
+    return "written", None
+
+
 def oracle_nested_free(parts):
     for i, a in enumerate(parts):
         for j, b in enumerate(parts):
@@ -1745,7 +1784,7 @@ def read_path_cases(chk, total):
     from antismash.common.secmet.locations import location_bridges_origin
     rng = chk.rng
     cases, outs = [], []
-    reported = {"read": 0, "idem": 0, "cds": 0}
+    reported = {"read": 0, "idem": 0, "cds": 0, "write": 0}
     corpus = [  # the seeded defect 6 and its neighbours: NCBI-style reverse-strand feature over the origin, every type
         (600, True, ty, [(0, 40, -1), (550, 600, -1)]) for ty in (0, 1, 2)] + [
         (600, True, 0, [(550, 600, 1), (0, 40, 1)]), (600, True, 0, [(550, 600, -1), (0, 40, -1)]),
@@ -1767,6 +1806,21 @@ def read_path_cases(chk, total):
             flat = [PROP, 14, n, int(circular), ty] + flat_parts(parts)
             out = impl_read_feature(n, circular, ty, type_name, parts)
             chk.count("read_feature_" + type_name)
+            # accepted on reading => can be written (C10_read_is_sortable / C10_read_features_compare), on the real code,
+            # also as a CDS or a CDS_motif (feature types the model does not cover)
+            for written_as in [type_name] + ([rng.choice(["CDS", "CDS_motif"])] if len(parts) > 1 else []):
+                verdict, detail = impl_read_then_write(n, circular, written_as, parts)
+                chk.count("read_then_write_" + verdict)
+                if verdict == "unwritable" and reported["write"] < 3:
+                    reported["write"] += 1
+                    chk.violation("counterexample", f"a {written_as} feature is accepted by Record.from_biopython "
+                                  f"({'circular' if circular else 'linear'} record of {n}) and the record can then not be "
+                                  f"written: {parts}: {detail}",
+                                  {"theorem_or_correspondence": "C10_read_features_compare / Record.from_biopython then "
+                                   "Record.to_biopython (class unsortable_exon_order_accepted)", "function": 14, "flat": flat,
+                                   "input": {"record_length": n, "circular": circular, "type": written_as, "parts": parts,
+                                             "other_features": "misc_feature, CDS, two subregions"},
+                                   "error": detail, "text": str(make_loc(parts))})
             if out[0] == 1:
                 chk.count("read_feature_error_" + common.ERR_NAME.get(out[1], str(out[1])))
             else:
@@ -1836,9 +1890,10 @@ def read_path_cases(chk, total):
             if stored is not None:
                 keys = [oracle_feature_key(make_loc(parts)) for parts in stored]
                 if len(set(keys)) != len(keys):
-                    chk.count("cds_order_lists_with_equal_keys")
-                else:
+                    chk.count("cds_order_lists_with_equal_keys")     # members of the repaired class C10-F47: judged like the rest
+                if True:
                     # the fixed point on the real code: re-adding the stored list in stored order keeps the order
+                    # (C10_cds_reload_fixed_point: whatever the keys)
                     again = Record("A" * n)
                     for i, parts in enumerate(stored):
                         location = make_loc(parts)
@@ -1847,9 +1902,9 @@ def read_path_cases(chk, total):
                             for c in again.get_cds_features()]
                     if back != stored and reported["cds"] < 3:
                         reported["cds"] += 1
-                        chk.violation("counterexample", "CDS features with different (start, length) sort keys change places when "
+                        chk.violation("counterexample", "CDS features change places when "
                                       f"the stored list is re-added in stored order: {stored} -> {back}",
-                                      {"theorem_or_correspondence": "C10_cds_order_kept / Record.add_cds_feature", "function": 15,
+                                      {"theorem_or_correspondence": "C10_cds_reload_fixed_point / Record.add_cds_feature", "function": 15,
                                        "flat": [PROP, 15, len(stored)] + [x for parts in stored for x in flat_parts(parts)],
                                        "implementation": out, "input": {"cds_locations_in_arrival_order": locs},
                                        "stored": stored, "stored_after_readding": back, "sort_keys": keys})
@@ -1864,7 +1919,8 @@ def read_path_cases(chk, total):
 
 def gen_cds_set(rng, n):
     """ 2-6 CDS locations (parts lists): ordinary genes, alternative transcripts sharing start and end, origin-crossing genes,
-        genes with equal (start, length) keys, and now and then an exon order Feature.__lt__ refuses """
+        genes with equal (start, length) keys (kept in arrival order since the repair of C10-F47), and now and then an exon
+        order Feature.__lt__ refuses (add_cds_feature called directly: reading refuses such a location) """
     out = []
     seen = set()
 
@@ -2013,7 +2069,8 @@ KNOWN_CLASS9 = "unsortable_exon_order_accepted"      # C10-F65
 
 def witness9_reproduces():
     """ a forward-strand misc_feature join(401..430,201..230,101..130) is accepted by Record.from_biopython, after which the
-        record cannot be written: Feature.__lt__ raises ValueError inside sorted(all_features) """
+        record cannot be written: Feature.__lt__ raises ValueError inside sorted(all_features) (repaired: such a location
+        is refused on reading with SecmetInvalidInputError) """
     from Bio.Seq import Seq
     from Bio.SeqFeature import SeqFeature
     from Bio.SeqRecord import SeqRecord
@@ -2023,7 +2080,11 @@ def witness9_reproduces():
     bio.annotations["molecule_type"] = "DNA"
     bio.features.append(SeqFeature(make_loc([(400, 430, 1), (200, 230, 1), (100, 130, 1)]), type="misc_feature"))
     bio.features.append(SeqFeature(make_loc([(9, 20, 1)]), type="misc_feature"))
-    record = Record.from_biopython(bio, "bacteria")
+    from antismash.common.secmet.errors import SecmetInvalidInputError
+    try:
+        record = Record.from_biopython(bio, "bacteria")
+    except SecmetInvalidInputError:
+        return False                # refused on reading, with the input error of the neighbouring checks: the repair
     try:
         record.to_biopython()
     except ValueError:
@@ -2034,7 +2095,8 @@ def witness9_reproduces():
 # regression corpus, run first on every run: the recorded witnesses of the repaired findings (known_findings.json, status
 # fixed).  Each function returns True when the defective behaviour is back.
 REGRESSION_CORPUS = [("C10-F62", REPAIRED_CLASS4, witness4_reproduces), ("C10-F60", REPAIRED_CLASS6, witness6_reproduces),
-                     ("C10-F61", REPAIRED_CLASS7, witness7_reproduces), ("C10-F64", REPAIRED_CLASS8, witness8_reproduces)]
+                     ("C10-F61", REPAIRED_CLASS7, witness7_reproduces), ("C10-F64", REPAIRED_CLASS8, witness8_reproduces),
+                     ("C10-F47", KNOWN_CLASS3, witness3_reproduces), ("C10-F65", KNOWN_CLASS9, witness9_reproduces)]
 
 
 def regression_corpus(chk):
@@ -2085,13 +2147,15 @@ RULE = ("(a) codec: text locations with all three position kinds, four strand sp
         "0-2 source features, on both strands, single / multi-exon in either exon order / over the origin (circular) as NCBI and "
         "antiSMASH write it, some sharing their location with a CDS or another feature, and in a third of the records 2-3 "
         "alternative transcripts (CDS sharing first-exon start and last-exon end, also over the origin); compared: parts in order, "
-        "strands, crosses_origin, qualifiers, CDS order of the record and of each region; an order-only difference is excused as "
-        "equal_key_genes_order only between CDS features whose (start, length) keys - computed by the harness, not by the "
-        "implementation - are equal.  (e) read path against the model: location_bridges_origin with and without allow_reversing "
+        "strands, crosses_origin, qualifiers, CDS order of the record and of each region; nothing is excused for CDS features with "
+        "equal (start, length) keys any more (C10-F47 repaired: they keep their arrival order).  (e) read path against the model: location_bridges_origin with and without allow_reversing "
         "(answer and location afterwards), Record.from_biopython on one-feature records (misc_feature / other generic / gene; "
         "linear and circular; nested exons, shuffled and reversed exon orders, mixed / missing strands, shared ends, ends beyond "
         "the record), CDS features added one by one (alternative transcripts, origin-crossing genes, equal keys, refused exon "
-        "orders); non-trivial = more than one part / more than one CDS.")
+        "orders; the stored list must be a fixed point of re-adding whatever the keys); every fn 14 case is also read as a "
+        "record with a second feature, a CDS and - after reading - two sub-regions, as its own type and as CDS / CDS_motif: "
+        "refused with SecmetInvalidInputError or written without an exception (C10-F65 repaired); non-trivial = more than "
+        "one part / more than one CDS.  Regression corpus also holds the witnesses of C10-F47 and C10-F65.")
 
 
 def run(chk):
@@ -2226,11 +2290,9 @@ def run(chk):
         chk.known(entry3["what_fails"])
     if entry5 is not None and reproduces(witness5_reproduces):
         chk.known(entry5["what_fails"])
-    entry9 = known_entry(KNOWN_CLASS9)
-    if entry9 is not None and reproduces(witness9_reproduces):
-        # nothing is suppressed for this class: the whole-record generator keeps out of it (generator rule (xi)), the CDS
-        # order stream compares the ValueError with the model's
-        chk.known(entry9["what_fails"])
+    # C10-F65 (unsortable_exon_order_accepted) and C10-F47 (equal_key_genes_order) are repaired: their witnesses run in the
+    # regression corpus, the read-path stream checks "accepted on reading => can be written" on every case and the CDS
+    # order stream checks the fixed point on every list, equal keys included; nothing is excused for either class
     chk.extra["not_modelled"] = ("Biopython GenBank writer/reader (line wrapping, header), orjson, qualifier codecs of gene-level "
                                  "features: covered by the whole-record stream only")
     return chk.finish(RULE, trusted_extra=("Biopython 1.81 SeqIO GenBank writer/reader and orjson are exercised, not modelled",))
